@@ -254,7 +254,9 @@ impl Parser {
             // This way, the expression: [NOT a AND b OR c], will be parsed as: (OR (AND (NOT a) b) c)
             Token::Not => {
                 self.next_token();
-                let expr = self.parse_expr_bp(3)?; // NOT precedence
+                // NOT precedence: the operand must stop before AND (left bp 3), so the minimum
+                // is 4; with 3 the loop kept consuming `AND ...` and NOT a AND b became NOT (a AND b).
+                let expr = self.parse_expr_bp(4)?;
                 Ok(Expr::UnaryOp {
                     op: UnaryOperator::Not,
                     expr: Box::new(expr),
